@@ -80,6 +80,10 @@ def run_case(case) -> dict:
         for m, kid in zip(plan["members"], kids):
             jk = jkey(gk.key_from_record(m["key"]), case["form"], True)
             pub = jk.as_dict(private=False) if m['key']['kty'] != 'oct' else jk.as_dict()  # a MAC verifier needs the secret
+            if m["key"]["kty"] != "oct" and len(payload) % 2:
+                # the verifier's JWK as the signer's counterpart publishes it: built from the public PEM / DER alone (a key object that
+                # never saw private members), then exported
+                pub = jkey(gk.key_from_record(m["key"]), ("pem", "der")[len(payload) // 2 % 2], False).as_dict()
             try:
                 table[kid] = rk.parse_jwk(json.loads(json.dumps(pub)), strict=True)
             except rk.JWKError as e:
